@@ -223,14 +223,15 @@ def run(P, R):
     u = P.unit('Context.on_process_state_event')
     cp = [c for c in own_nodes(u.node) if isinstance(c, ast.Call) and call_text(c) == 'self.check_process']
     fdef = [a for a in own_nodes(u.node) if isinstance(a, ast.Assign) and ast.unparse(a.targets[0]) == 'forced_event']
-    ok = len(cp) == 1 and len(cp[0].args) == 3 and ast.unparse(cp[0].args[2]) == 'not forced_event' and \
-        len(fdef) == 1 and ast.unparse(fdef[0].value) == "'forced' in event"
+    ok = len(cp) == 1 and len(cp[0].args) == 3 and ((ast.unparse(cp[0].args[2]) == 'not forced_event' and
+                                                     len(fdef) == 1 and ast.unparse(fdef[0].value) == "'forced' in event")
+                                                    or ast.unparse(cp[0].args[2]) == "'forced' not in event")
     R.check(r3, ok, 'a forced event does not require the sender to know the program', 'forced|check_source', u.loc(),
             'Context.on_process_state_event checks the source of a forced event (check_process(..., not forced_event) '
             'expected): a give-up issued by an instance that does not have the program is discarded')
     fm = factmap(u)
     fs_ = [c for c in own_nodes(u.node) if isinstance(c, ast.Call) and call_text(c) == 'process.force_state']
-    ok = len(fs_) == 1 and fm.has(fs_[0], 'forced_event', True)
+    ok = len(fs_) == 1 and fm.has(fs_[0], "'forced' in event", True)
     R.check(r3, ok, 'a forced event goes through ProcessStatus.force_state', 'forced|force_state', u.loc(),
             'Context.on_process_state_event does not call process.force_state(event) under forced_event')
     u = P.unit('ProcessStatus.force_state')
